@@ -27,7 +27,8 @@ Chk(ok, guard, sig) == IF ok THEN <<>> ELSE <<[line |-> l, guard |-> guard, sig 
 
 NoRec == [ctrl |-> "-", object |-> "-", provList |-> "none", listed |-> {}, getGone |-> {}, lookErr |-> {}, nodeReadErr |-> FALSE,
           ice |-> FALSE]
-St0(cfg) == [cfg |-> cfg, claims |-> <<>>, nodes |-> <<>>, rec |-> NoRec]
+\* prov: the instances the provider currently has (every provider event carries the instance table after it)
+St0(cfg) == [cfg |-> cfg, claims |-> <<>>, nodes |-> <<>>, prov |-> {}, rec |-> NoRec]
 
 TraceInit == l = 1 /\ st = St0(Absent) /\ viol = <<>> /\ ntr = 0 /\ done = FALSE
 
@@ -53,7 +54,9 @@ DeleteChecks(c, t) ==
       THEN LET \* the provider said so in this reconcile: a successful List without the instance, or a Get answered NotFound
                gone == c.providerID \in st.rec.getGone
                ok == st.rec.provList = "ok" \/ gone
-               lst == IF gone THEN {} ELSE st.rec.listed
+               \* "no longer lists": absent from the listing the pass read AND absent from the provider at the delete
+               \* (a listing taken before the instance existed establishes nothing about it)
+               lst == (IF gone THEN {} ELSE st.rec.listed) \cup st.prov
                \* no Node read that concerns this claim failed in this reconcile (whatever way the controller looks the Node up)
                lk == c.providerID \notin st.rec.lookErr /\ ~st.rec.nodeReadErr
            IN Chk(G_C16_GarbageCollection(c, ok, lst, lk, st.nodes), "G_C16_GarbageCollection",
@@ -98,7 +101,9 @@ TProv ==
     /\ LET isList == Ev.call = "List" /\ Ev.actor = st.rec.ctrl
            isCreate == Ev.call = "Create"
            getGone == Ev.call = "Get" /\ Ev.actor = st.rec.ctrl /\ Ev.err = "NotFound"
-       IN st' = [st EXCEPT !.rec.provList = IF isList THEN (IF Ev.err = "-" THEN "ok" ELSE "err") ELSE @,
+           live == {Ev.post[i].pid : i \in {j \in DOMAIN Ev.post : Ev.post[j].state # "gone"}}
+       IN st' = [st EXCEPT !.prov = live,
+                           !.rec.provList = IF isList THEN (IF Ev.err = "-" THEN "ok" ELSE "err") ELSE @,
                            !.rec.getGone = IF getGone THEN @ \cup {Ev.arg} ELSE @,
                            !.rec.listed = IF isList /\ Ev.err = "-"
                                           THEN {Ev.post[i].pid : i \in {j \in DOMAIN Ev.post : Ev.post[j].state # "gone"}}
